@@ -39,6 +39,7 @@ func isSubresourceCreate(in ssa.Instruction, sub string) bool {
 
 func runC11(c *Ctx) {
 	runC11ClaimFill(c)
+	runC11LabelRemoval(c)
 	borrow(c, "O7", "C17", "O2", "paired with ReleaseMutex", "a failed reservation step must not leave the group mutex held: the rollback of the same attempt would block forever and the request would never be reported failed")
 	borrow(c, "O6", "C17", "O5", "label patch is applied through", "rollback removes the labels it sees on the reconciler's pod object")
 
@@ -456,4 +457,41 @@ func runC11ClaimFill(c *Ctx) {
 			"the DRA bind step overwrites the allocation of a ResourceClaim that is already allocated: the devices of the pod already using the claim are re-pointed to the new request's (on a real API server the status update is rejected and the bind fails after its earlier steps)")
 	}
 	c.Floor("O8", "DOM claim allocation writes", n, 1)
+}
+
+// C11-O9 (CONST/PROV): rollback's removal of the GPU-group labels cannot be refused because of a label that exists
+// only in memory. The label is added to the reconciler's pod object BEFORE its patch is sent (updatePodGPUGroup), so
+// after a failed patch the object names a label the server never got. A JSON patch "remove" of an absent key is an
+// error that rejects the whole patch — the labels that did reach the server (earlier groups of a multi-fraction pod)
+// then stay, and with them the reservation pods. The removal must be expressed so that an absent key is a no-op (a
+// merge patch with nulls), or be computed from a pod re-read inside the function.
+func runC11LabelRemoval(c *Ctx) {
+	p := c.P
+	fn := c.Anchor("O9", pkgResv, "service", "RemovePodGpuGroupsConnection")
+	if fn == nil {
+		return
+	}
+	n := 0
+	for _, h := range p.deepFind(fn, func(in ssa.Instruction) bool {
+		cc, ok := in.(ssa.CallInstruction)
+		return ok && calleeOf(cc) != nil && calleeOf(cc).Name() == "RawPatch"
+	}, 2) {
+		n++
+		args := h.In.(ssa.CallInstruction).Common().Args
+		kind := "?"
+		if k, ok := args[0].(*ssa.Const); ok && k.Value != nil {
+			kind = constString(k)
+		} else if g, ok := stripLoad(args[0]).(*ssa.Global); ok {
+			kind = g.Name()
+		} else if u, ok := args[0].(*ssa.UnOp); ok {
+			if g, ok := u.X.(*ssa.Global); ok {
+				kind = g.Name()
+			}
+		}
+		jsonPatch := strings.Contains(kind, "json-patch") || kind == "JSONPatchType"
+		reread := len(p.deepFind(fn, isInvokeNamed("Get"), 1)) > 0
+		c.Check(!jsonPatch || reread, "O9", "CONST", funcKey(fn)+": removing a label the server never got is a no-op", instrPos(h.In), "patch type "+kind,
+			"the GPU-group labels are removed with a JSON patch built from the in-memory pod (type "+kind+"): when one of those labels never reached the API server (its own patch failed) the whole patch is rejected and the labels that did reach it stay — the reservation pod keeps holding a GPU for a pod that was never bound")
+	}
+	c.Floor("O9", "CONST label-removal patches", n, 1)
 }
